@@ -71,6 +71,33 @@ def check(ctx):
             ctx.candidate(ob, role, bad[0][1], confirm=lambda: native_supersede(ctx))
 
 
+def check_sealed(ctx):
+    o = ctx.ob('seqno/above-sealed-journal', 'recover_sealed_memtables + recover: next seqno > seqno of every batch read from a sealed journal (resolvable or not, replayed or skipped); visible == next', ['recovery::recover_sealed_memtables', 'db::<impl>::recover'])
+    ex, paths, env = recov.run_recover(ctx, n_ks=2, shape=(), sealed_shape=((1, 0), (0, 1)))
+    bad = []
+    for p in paths:
+        if p.status in ('error', 'timeout', 'loop_bound'):
+            o.status = 'undecided'; o.detail = f'executor: {p.status} {p.notes[-1:]}'; return
+        if p.status != 'returned' or ctx.sat(p.pc + [ret_is_ok(p)], o)[0] != z3.sat:
+            continue
+        fc = recov.final_counters(ex, p)
+        if fc is None or fc[0] is None:
+            continue
+        S, V, K = fc
+        o.reach += 1
+        reads = [e.args['idx'] for e in p.events if e.kind == 'BATCH_READ']
+        if reads and ctx.sat(p.pc + [z3.Or([z3.Not(z3.UGT(S, env.batches[i]['seqno'])) for i in reads])], o)[0] != z3.unsat:
+            bad.append((p, 'after recovery the next seqno can be ≤ the seqno of a batch in a sealed journal')); continue
+        if V is None or ctx.sat(p.pc + [V != S], o)[0] != z3.unsat:
+            bad.append((p, 'visible seqno differs from the next seqno after recovery')); continue
+    if o.reach == 0:
+        o.status = 'undecided'; o.detail = 'vacuous'
+    elif not bad:
+        o.status = 'discharged'; o.sample = {'ok_paths': o.reach}
+    else:
+        ctx.candidate(o, 'recover-sealed/seqno-not-above-journal-records', bad[0][1], confirm=lambda: native_supersede(ctx))
+
+
 def native_supersede(ctx):
     """histories: (what is on disk before the reopen) → reopen → seqno must exceed everything seen before; a write after
     the reopen must win for point reads and scans; a snapshot sees recovered ∪ new"""
@@ -83,6 +110,7 @@ def native_supersede(ctx):
         'tombstones-only': ['ks a', 'remove a 6b31', 'remove a 6b32'],
         'ingested': ['ks a', 'ingest a 6b31:31,6b32:32', 'ingest a 6b33:33'],
         'cleared': ['ks a', 'insert a 6b31 31', 'clear a'],
+        'sealed-journal-deleted-keyspace': ['rotation_threshold 0', 'ks a', 'ks b', 'insert a 6b31 31', 'insert b 6b31 41', 'insert b 6b32 42', 'insert b 6b33 43', 'rotate a', 'worker_drain', 'delete_ks b'],
         'two-keyspaces-different-marks': ['ks a', 'ks b', 'insert a 6b31 31', 'rotate a', 'worker_drain', 'insert b 6b31 41', 'insert b 6b32 42', 'insert b 6b33 43'],
     }
     last = (False, None, 'not run')
@@ -120,6 +148,7 @@ def native_supersede(ctx):
 
 def run(ctx):
     check(ctx)
+    check_sealed(ctx)
     ctx.assumptions += [
         'E8: get_highest_seqno / get_highest_persisted_seqno report the maximum seqno over memtables+tables / tables',
         'journal reader by contract (its byte-level behaviour is C03/C15); sealed journals go through recover_sealed_memtables (same replay code, checked for C04)',
